@@ -547,6 +547,13 @@ def lower_tie(ctx):
     dup = ["seq", ["calldataload", 32], ["calldataload", 0], ["calldataload", 32]]
     extra = [["mstore", 0, ["add", "x", dup]], ["seq", ["mload", 0], ["mload", 0], ["mload", 0]],
              ["mstore", 0, ["seq", "x", "y", "x"]]]
+    # directed: loop clean-up inside function labels (cleanup_repeat skips the label parameters return_buffer / return_pc)
+    for ps in ([], ["return_pc"], ["return_buffer", "return_pc"], ["a", "return_pc"], ["return_buffer"], ["a", "b"]):
+        inner = ["seq", ["with", "w", 1, ["seq", "cleanup_repeat", ["if", "w", "break"]]], "cleanup_repeat",
+                 ["if", ["calldataload", 0], "break"], ["if", ["calldataload", 32], "continue"]]
+        extra.append(["label", "fd", ["var_list"] + ps, ["repeat", "k", 0, 5, 5, inner]])
+        extra.append(["label", "fd", ["var_list"] + ps,
+                      ["repeat", "k", 1, ["calldataload", 0], 5, ["repeat", "j", "k", 2, 2, inner]]])
     cases = []
     with anchor_settings(Settings(evm_version="cancun")):
         while len(cases) < want:
@@ -667,7 +674,7 @@ STATIC_FILES = ["C15/Syntax.v", "C15/WordFacts.v", "C15/Bytes.v", "C15/Peephole.
 # regenerated model first: any change in /repo's translated code re-checks every proof after it
 GEN_FILES = ["C15/GenUtils.v", "C15/Optimizer.v", "C15/OptTree.v", "C15/FoldSound.v", "C15/PropsFold.v", "C15/OptSound.v",
              "C15/OptTreeSound.v", "C15/MergeSound.v", "C15/MemInst.v", "C15/SymSound.v", "C15/PropsOpt.v",
-             "C15/Lower.v", "C15/LowerSound.v", "C15/PropsLower.v"]
+             "C15/Lower.v", "C15/LowerSound.v", "C15/LowerFlow.v", "C15/PropsLower.v"]
 
 
 def _build(ctx):
